@@ -163,7 +163,7 @@ SERIALIZERS = ["ident", "str", "wrap", "neg"]
 
 # exception pool: names resolved in vf.excs
 EXC_EXCEPTION = ["ValueError", "KeyError", "RuntimeError", "UserError", "DeepUserError", "OSError", "FileNotFoundError",
-                 "ZeroDivisionError", "BadStr", "UnicodeErr", "StopIteration", "FalsyError", "EmptyErrors"]
+                 "ZeroDivisionError", "BadStr", "UnicodeErr", "StopIteration", "FalsyError", "EmptyErrors", "BadStrRaisesBase"]
 EXC_BASE = ["KeyboardInterrupt", "GeneratorExit", "SystemExit", "CancelledError", "UserBase", "BadStrBase"]
 
 
@@ -172,8 +172,10 @@ class ProgGen(object):
 
     def __init__(self, rng, max_depth=4, max_nodes=40, value_depth=2, msg_styles=None, act_styles=None,
                  exc_pool=None, allow_remote=True, allow_tb=True, allow_typed=True, type_names=None,
-                 allow_cross=True, fail_p=0.3, remote_vias=("same", "thread"), allow_reenter=False, hostile=None, defer_p=0.0):
+                 allow_cross=True, fail_p=0.3, remote_vias=("same", "thread"), allow_reenter=False, hostile=None, defer_p=0.0, early_finish_p=0.0, extra_styles=()):
         self.allow_reenter = allow_reenter
+        self.early_finish_p = early_finish_p  # share of with-style actions that call finish() themselves at the end of the block
+        self.extra_styles = tuple(extra_styles)  # e.g. "pre_created", "ctx_finish_inside"
         self.defer_p = defer_p  # share of continue_task hand-offs that are continued only after the program (parent finished)
         self.hostile = hostile  # callable(rng) -> hostile value, used for ~1/3 of the field values
         self.rng = rng
@@ -241,6 +243,8 @@ class ProgGen(object):
     def act(self, depth, force_style=None):
         rng = self.rng
         style = force_style or rng.choice(self.act_styles)
+        if force_style is None and self.extra_styles and rng.random() < 0.2:
+            style = rng.choice(self.extra_styles)
         typed = style in ("ActionType", "as_task")
         if typed and not self.allow_typed:
             style, typed = "with", False
@@ -267,6 +271,10 @@ class ProgGen(object):
             node["extra_finish"] = rng.randint(1, 3)
         if self.allow_reenter and rng.random() < 0.35:
             node["reenter"] = [rng.choice(["context", "run"]) for _ in range(rng.randint(1, 3))]
+        if self.allow_reenter and rng.random() < 0.2:
+            node["enter_after_finish"] = [rng.choice(["context", "run"]) for _ in range(rng.randint(1, 2))]
+        if style in ("with", "start_task") and rng.random() < self.early_finish_p:
+            node["early_finish"] = rng.choice(["ok", "exc"])
         node["children"] = self.body(depth + 1)
         if rng.random() < self.fail_p:
             node["outcome"] = "raise"
